@@ -22,7 +22,7 @@ def run_child(vdrive, args, timeout=1500):
 
 
 def crash_violation(res, out, err, kind):
-    m = re.search(r"^panic: (.*)$", err, re.M)
+    m = re.search(r"^(?:panic|fatal error): (.*)$", err, re.M)
     msg = m.group(1) if m else "driver died"
     site = re.search(r"(layer4/\w+\.go:\d+)", err)
     scen = [l for l in out.splitlines() if l.startswith("SCENARIO")]
@@ -55,7 +55,7 @@ def run(res, tier):
         summ = os.path.join(tmp, "sum.json")
         rc, out, err = run_child(vdrive, ["udp-run", "-in", gf, "-out", tr, "-summary", summ, "-reps", "2" if tier == "quick" else "10"])
         if rc != 0:
-            if "panic:" in err:
+            if "panic:" in err or "fatal error:" in err:
                 crash_violation(res, out, err, "udp-run")
                 cov.update(traces_validated_against_impl=0, samples=[dict(crash=err[-800:])])
                 return
@@ -69,7 +69,7 @@ def run(res, tier):
         sumg = os.path.join(tmp, "sumg.json")
         rc, out, err = run_child(vdrive, ["udp-gated", "-out", trg, "-summary", sumg, "-reps", "30" if tier == "quick" else "300", "-closes", "30000" if tier == "quick" else "600000"] + (["-idle"] if tier == "thorough" else []))
         if rc != 0:
-            if "panic:" in err:
+            if "panic:" in err or "fatal error:" in err:
                 crash_violation(res, out, err, "udp-gated")
                 return
             raise Inconclusive(f"udp-gated failed rc={rc}: {out[-1000:]} {err[-2000:]}")
